@@ -1347,6 +1347,9 @@ class Sim:
         tags = ["unknown_key"] if unknown else []
         out = {"resolved": {"keys": list(keys), "on": on}, "tags": tags}
         try:
+            if on and op.get("pre_norecompute") and not unknown:
+                tr.enable_features(list(keys), recompute=False)
+                tags.append("pre_norecompute")
             (tr.enable_features if on else tr.disable_features)(list(keys))
             out["cls"] = "accepted"
         except StepTimeout:
@@ -1406,10 +1409,10 @@ class Sim:
                 res += oracles.iou_values(tr, "C10", "values")
         if tr.features.tracklet_key in ks:
             res += [("C10.values", m) for _, m in oracles.track_partition(tr)]
-            res += [("C10.values", m) for _, m in oracles.lookups(tr)]
+            res += [("C10.values", m) for _, m in oracles.lookups(tr, ("tracklet",))]
         if tr.features.lineage_key in ks:
             res += [("C10.values", m) for _, m in oracles.lineage_partition(tr)]
-            res += [("C10.values", m) for _, m in oracles.lookups(tr)]
+            res += [("C10.values", m) for _, m in oracles.lookups(tr, ("lineage",))]
         for o, m in res:
             self.violate("C10", "C10.values", f"after enable_features({sorted(ks)}): {m}", op, tags)
             return
